@@ -118,6 +118,96 @@ func vc04Cookie(f []string) string {
 	return "clock-unstable"
 }
 
+// vc04WaitUntil sleeps until the wall clock is inside second `sec` (at least 100 ms into it).
+func vc04WaitUntil(sec int64) bool {
+	for {
+		t := time.Now()
+		if t.Unix() > sec {
+			return false
+		}
+		if t.Unix() == sec && t.Nanosecond() >= 100000000 {
+			return t.Nanosecond() < 900000000
+		}
+		d := time.Unix(sec, 100000000).Sub(t)
+		if d < time.Millisecond {
+			d = time.Millisecond
+		}
+		time.Sleep(d)
+	}
+}
+
+// sq: a history on ONE CookieManager.
+//   sq <secret> <ttl_ns> <step>...   step = G/<mac>/<sv>/<cv>            Generate, remembered as g<i> (i = 0,1,..)
+//                                         | V/<src>/<mut>/<mac>/<sv>/<cv> Validate; src = g<i> | f,<dt>,<mac>,<sv>,<cv> (dt relative to the first second)
+//                                         | L/<ttl_ns>                    change the manager's lifetime (in-package seam)
+//                                         | W/<k>                         wait until the k-th second after the first one
+//   -> now=<first second> <one token per step: c:<hex> | 1 | 0 | ->
+func vc04Seq(f []string) string {
+	secret := vc04Hex(f[1])
+	ttl, _ := strconv.ParseInt(f[2], 10, 64)
+	for attempt := 0; attempt < 6; attempt++ {
+		t0 := time.Now()
+		if ns := t0.Nanosecond(); ns < 1000 || ns > 800000000 {
+			time.Sleep(time.Duration(1000001000-ns) * time.Nanosecond)
+			continue
+		}
+		base := t0.Unix()
+		cur := base
+		cm := &CookieManager{secret: secret, ttl: time.Duration(ttl)}
+		var gens [][]byte
+		outs := []string{fmt.Sprintf("now=%d", base)}
+		ok := true
+		for _, st := range f[3:] {
+			p := strings.Split(st, "/")
+			switch p[0] {
+			case "G":
+				c := cm.Generate(net.HardwareAddr(vc04Hex(p[1])), vc04U16(p[2]), vc04U16(p[3]))
+				gens = append(gens, c)
+				outs = append(outs, "c:"+vc04Show(c))
+			case "V":
+				var c []byte
+				if p[1][0] == 'g' {
+					i, _ := strconv.Atoi(p[1][1:])
+					if i < len(gens) {
+						c = gens[i]
+					}
+				} else {
+					q := strings.Split(p[1], ",")
+					dt, _ := strconv.ParseInt(q[1], 10, 64)
+					c = vc04Forge(secret, vc04Hex(q[2]), vc04U16(q[3]), vc04U16(q[4]), uint32(base-dt))
+				}
+				c = vc04Mutate(c, p[2])
+				if cm.Validate(c, net.HardwareAddr(vc04Hex(p[3])), vc04U16(p[4]), vc04U16(p[5])) {
+					outs = append(outs, "1")
+				} else {
+					outs = append(outs, "0")
+				}
+			case "L":
+				n, _ := strconv.ParseInt(p[1], 10, 64)
+				cm.ttl = time.Duration(n)
+				outs = append(outs, "-")
+			case "W":
+				k, _ := strconv.ParseInt(p[1], 10, 64)
+				if time.Now().Unix() != cur || !vc04WaitUntil(base+k) {
+					ok = false
+				}
+				cur = base + k
+				outs = append(outs, "-")
+			default:
+				outs = append(outs, "badstep")
+			}
+			if !ok {
+				break
+			}
+		}
+		if !ok || time.Now().Unix() != cur {
+			continue
+		}
+		return strings.Join(outs, " ")
+	}
+	return "clock-unstable"
+}
+
 func vc04Tags(f []string) string {
 	tg, err := ParseTags(vc04Hex(f[1]))
 	if err != nil {
@@ -141,6 +231,8 @@ func vc04One(line string) (res string) {
 		return vc04Cookie(f)
 	case "tags":
 		return vc04Tags(f)
+	case "sq":
+		return vc04Seq(f)
 	}
 	return "badline"
 }
